@@ -135,7 +135,7 @@ func renderScript(scr M, idx int, thorough bool) []M {
 	}
 	variants := []int{idx}
 	if thorough && (s.Src[0].Kind != "none" || s.Src[1].Kind != "none") {
-		variants = []int{0, 1, 2, 3, 4, 5, 6}
+		variants = []int{0, 1, 3, 6}
 	}
 	for _, mode := range modes {
 		for _, tk := range tkindsFor(s, idx, thorough) {
@@ -324,6 +324,9 @@ func generate(c *drv.Ctx) {
 
 	// execute in parallel (stalled calls wait for their deadline), then emit in order
 	par := 8
+	if thorough {
+		par = 16 // most of the time is spent waiting for deadlines of stalled calls
+	}
 	if v, err := strconv.Atoi(os.Getenv("VERIF_C12_PAR")); err == nil && v > 0 {
 		par = v
 	}
